@@ -114,6 +114,17 @@ theorem insert_key_step_sample_is_model (null : α) (e o : DExt κ α) (sd : Nat
       errV ((stepSampleK null isTime e.shp (o.shp (some sd)) ks other).map toDict) :=
   Src.keyStep_sample_eq null e o sd isTime h3 h5 hpos hsl hsd3 ho3 ho5 hopos hsd hoT hsamp hvo hbase ks other hks hother hnn valid oc k hov
 
+/-- **the `try` block of `_insert` ends normally when every visited key can be reclassified and inserted** — it raises only if
+    `keyStep` raises for some visited key on the entry that key has at the start -/
+theorem insert_try_ends_normally_when_steps_do (null : α) (ss : List Nat) (sn sd : Option Nat) (bases : List String) (kc0 : KContent κ α)
+    (os : List Nat) (on : Option Nat) (oc : Content κ α) (dim : Nat) (valid sv : List Cls) (oks : List κ)
+    (hv : Py.get_valid_classes os = .ok valid) (hsv : Py.get_valid_classes ss = .ok sv) (hk : Py.get_keys os oc = .ok oks)
+    (hnd : (valid.flatMap (roundKeys oc ((KContent.keys sv kc0).filter fun key => !oks.contains key))).Nodup)
+    (hstep : ∀ c k, c ∈ valid → k ∈ roundKeys oc ((KContent.keys sv kc0).filter fun key => !oks.contains key) c →
+        ∃ a, keyStep null ss sn sd bases os on valid oc dim c k (kc0.get k) = .ok a) :
+    ∃ kc', Py.insert_try null ss sn sd bases kc0 os on oc dim = .ok kc' :=
+  Src.insert_try_ok null ss sn sd bases kc0 os on oc dim valid sv oks hv hsv hk hnd hstep
+
 /-- the translator translated every function of this group (dcmmeta.py: _insert as a whole) -/
 theorem translator_complete_insertall : Gen.codeMissing_insertall = [] := rfl
 
